@@ -127,12 +127,17 @@ ValOk(e, run, pc) ==
       [] e.op = "ListIndexes"     -> Distinct(v) /\ Range(v) = pc[e.c].idx
       [] e.op = "FindById"        -> OptDocOk(v, pc[e.c].docs, e.id)
       [] e.op = "FindAll"         -> ValidFindAll(v, pc[e.c].docs, QueryOf(e))
-      [] e.op = "ForEach"         -> ValidForEach(v, e.j, pc[e.c].docs, QueryOf(e))
+      [] e.op \in {"ForEach", "IterateDocs"} -> ValidForEach(v, e.j, pc[e.c].docs, QueryOf(e))
       [] e.op = "FindFirst"       -> ValidFindFirst(v, pc[e.c].docs, QueryOf(e))
       [] e.op = "Count"           -> v = CountOf(pc[e.c].docs, QueryOf(e))
       [] e.op = "Exists"          -> v = ExistsOf(pc[e.c].docs, QueryOf(e))
       [] e.op = "Derived"         -> DerivedOk(v, pc[e.c].docs, QueryOf(e))
       [] OTHER -> TRUE
+
+\* an iteration stopped by its consumer's error has visited exactly the documents before the stop
+StoppedOk(e, run, pc) ==
+    (e.op = "IterateDocs" /\ run.res.st = "err" /\ run.res.err = "consumer" /\ HasColl(pc, e.c)) =>
+        ValidForEach(run.res.val, e.j, pc[e.c].docs, QueryOf(e))
 
 \* C09: calls and builders leave the query object they were given unchanged
 PureOk(run) == HasField(run.res, "qfp") => run.res.qfp[1] = run.res.qfp[2]
